@@ -869,8 +869,8 @@ def g_sem(rng):
             ops.append({"op": "use_obj", "obj": rng.choice(live), "ctx": ctx, "how": rng.choice(["touch", "touch", "crash"])})
         else:
             ops.append({"op": "shmlist"})
-    use_exec = rng.random() < 0.7
-    ending = rng.choice(["return", "return", "raise", "sys_exit", "os_exit", "crash_worker", "killself", "return_live"])
+    use_exec = rng.random() < 0.65
+    ending = rng.choice(["return", "return", "raise", "sys_exit", "os_exit", "os_exit", "crash_worker", "killself", "return_live"])
     tmo = 0.3
     crash = False
     if use_exec:
